@@ -1,4 +1,36 @@
-(* C06 - completeness of the plan-driven LL(1) engine (abstract tables; LL1.v) *)
-Require Import LL1.
-Definition C06_complete_statement := @complete.
-Print Assumptions complete.
+(* C06 - the parser accepts every sentence of its grammar and returns the derivation.
+   (1) LL1.complete: an abstract plan-driven stack engine accepts every derivation, given table hypotheses.
+   (2) LL1Inst.tables_complete: boolean checkers over the dumped tables establish those hypotheses
+       (table obligation gen/LL1_<v>.v: tables_ok by vm_compute for every shipped grammar, all rules).
+   (3) LL1Engine.engine_complete: the fuelled add_token/feed/finish of Engine.v - the model that is extracted and
+       compared with parso - realises the abstract engine, so strict parsing of any sentence returns
+       convert_node of the collapsed derivation, or a conversion failure (AttributeError/IndexError in Python),
+       never a syntax error.  With C07_strict_accepts_recover_same the recovering parser returns the same tree. *)
+From Coq Require Import List NArith Bool.
+Import ListNotations.
+Require Import Regex Tok Engine LL1 LL1Inst LL1Engine EngineSim.
+
+Theorem C06_engine_complete : forall G TR FWT fuel, tables_ok G TR FWT fuel = true ->
+  forall F kb t toks,
+    wf tree N label N (arcT G) (arcN G) (startR G) (final G) (validR G) (DNode tree label N F kb) ->
+    FW FWT F t = true ->
+    word_of G toks = yield tree label N (DNode tree label N F kb) ->
+    parse G TR false F toks = convert_node G F (map (collapse tree label N (mk_node G)) kb)
+    \/ exists e, conv_err e /\ parse G TR false F toks = PErr e.
+Proof. exact engine_complete. Qed.
+Print Assumptions C06_engine_complete.
+
+(* and the recovering parser agrees whenever the strict one returns a tree *)
+Theorem C06_recovering_same : forall G TR F toks t,
+  parse G TR false F toks = POk t -> parse G TR true F toks = POk t.
+Proof. exact strict_accepts_recover_same. Qed.
+
+(* the checkers are sound one by one (what `tables_ok` means) *)
+Theorem C06_plans_are_first_chains : forall G TR fuel, plans_complete_ok G TR fuel = true ->
+  forall q a q' ch,
+    (ch = [] /\ arcT G q a = Some q') \/ (exists B, arcN G q B = Some q' /\ first_chain N label N (arcT G) (arcN G) (startR G) B a ch) ->
+    plansI TR q a = Some (q', ch).
+Proof. exact plans_complete_sound. Qed.
+Theorem C06_no_first_follow_conflict : forall G TR FWT, noconf_ok G TR FWT = true ->
+  forall q t, final G q = true -> FW FWT (rule_of G q) t = true -> plansI TR q t = None.
+Proof. exact noconf_sound. Qed.
